@@ -222,7 +222,7 @@ def check_scheme_copies(ctx, fx, rule="I2"):
         mf = MustFlow(f)
         arms = arm_blocks(f, mf, "is_input_special")
         for arm, blks in arms.items():
-            conds = atomic_conds(blks)
+            conds = atomic_conds(blks, C.single_inits(f))      # (a refusal's test may be named: `const bool buffer_is_file = ...`)
             # elision block
             init = None
             clears = []
